@@ -76,3 +76,19 @@ let errkind_s = function
   | EVarNotPresent -> "E:VarNotPresent" | EOther -> "E:Other"
 let out_res f = function Inl a -> f a | Inr e -> errkind_s e
 let out_strlist l = "L:" ^ String.concat "," (List.map hex_str l)
+
+(* decimal string (fits i64) -> Z *)
+let rec pos_of_u64 (x : int64) : positive =
+  if Int64.equal x 1L then XH
+  else
+    let rest = pos_of_u64 (Int64.shift_right_logical x 1) in
+    if Int64.equal (Int64.logand x 1L) 0L then XO rest else XI rest
+let z_of_string (s : string) : z =
+  let x = Int64.of_string s in
+  if Int64.equal x 0L then Z0
+  else if Int64.compare x 0L > 0 then Zpos (pos_of_u64 x)
+  else Zneg (pos_of_u64 (Int64.neg x))   (* neg min_int = min_int, read as unsigned 2^63 *)
+let out_nlist l = "L:" ^ String.concat "," (List.map (fun n -> string_of_int (int_of_n n)) l)
+let iter_err_s = function ItemNotFound -> "E:IterItemNotFound" | MultipleItemsFound -> "E:IterMultipleItemsFound"
+let out_num n = "N:" ^ string_of_int (int_of_n n)
+let out_sum = function Inl n -> out_num n | Inr e -> iter_err_s e
